@@ -78,10 +78,17 @@ def make_case(rng, i, ctx):
     truth = A @ ptrue
     kind = str(rng.choice(['independent', 'shared', 'mixed'])) if i % 5 else 'shared'      # every fifth case: combined fit on one ensemble (correlated chi^2 possible)
     m = len(truth)
+    if i % 7 == 3 and m <= 9:
+        kind = 'common_factor'       # every point on its own ensemble, all of them times one external factor (a renormalisation constant with an error)
     corr_mode = 'none'
     if kind == 'shared' and m <= 9 and (rng.random() < 0.6 or i % 5 == 0):
         corr_mode = str(rng.choice(['estimated', 'supplied']))
-    yall = fitgen.data_points(rng, truth, kind, m, nsamp=60 if corr_mode != 'none' else 40, vary_n=bool(kind == 'shared' and rng.random() < 0.5))
+    if kind == 'common_factor':
+        corr_mode = 'estimated'
+        zren = pe.cov_Obs(1.0, 0.03 ** 2, 'Zren')
+        yall = [o * zren for o in fitgen.data_points(rng, truth, 'independent', m)]
+    else:
+        yall = fitgen.data_points(rng, truth, kind, m, nsamp=60 if corr_mode != 'none' else 40, vary_n=bool(kind == 'shared' and rng.random() < 0.5))
     [o.gamma_method() for o in yall]
     ys, pos = {}, 0
     for key in sorted(keys):
